@@ -136,6 +136,16 @@ class Interp:
             raise Unsupported(f"{self.func.qual}:{s.lineno}: statement kind {type(s).__name__}")
         return self.attempt(st, lambda trial: m(s, trial))
 
+    def s_Assert(self, s: ast.Assert, st: State) -> t.List[t.Tuple[State, Outcome]]:
+        # assert test  ==  if not test: raise AssertionError
+        c = self.ev.truth(self.ev.eval(s.test, st), s.test, st)
+        if isinstance(c, BoolVal):
+            d = st.decisions.get(id(s))  # type: ignore[attr-defined]
+            if d is None:
+                raise NeedFork(s, c)
+            c = d
+        return [(st, Outcome("fall"))] if c else [(st, Outcome("raise", None, s))]
+
     def s_Pass(self, s: ast.Pass, st: State) -> t.List[t.Tuple[State, Outcome]]:
         return [(st, Outcome("fall"))]
 
@@ -174,6 +184,8 @@ class Interp:
                 typ = value.typ[1] if value.typ[0] == "opt" else value.typ
                 if typ[0] == "cls" and len(typ[1].fields()) == len(target.elts):
                     items = [self.ev.attr(value, fld.name, node, st) for fld in typ[1].fields()]
+                elif typ[0] == "tuple" and len(typ[1]) == len(target.elts):
+                    items = [typed_value(f"{value.path}[{i}]", ty) for i, ty in enumerate(typ[1])]
             if items is None or len(items) != len(target.elts):
                 for el in target.elts:
                     self.assign(el, Unknown(unparse(node)), st, node)
